@@ -412,6 +412,7 @@ def json_text(v):
 def sock_wf(s):
     """Well-formedness of a socket object (what every socket method requires)."""
     return s.server.ping_timeout >= 0 and s.server.ping_interval >= 0 and \
+        s.server.max_http_buffer_size >= 0 and \
         (s.last_ping is None or isinstance(s.last_ping, float)) and \
         s.queue.unf >= len(s.queue.items)
 
